@@ -871,6 +871,10 @@ def constructor_dataflow(mir):
     src = r.group(1)
     if not re.search(r'_%s = move \(\(_3 as Some\)\.0: http::Uri\);' % src, body):
         return False, 'canonicalize_uri is not applied to the constructor\'s uri parameter'
+    # the local holding the canonical URI must be written by that call and by nothing else
+    writes = re.findall(r'^\s*_%s = ' % res, body, re.M)
+    if len(writes) != 1:
+        return False, 'the value converted for printer-uri is assigned %d times (expected: once, by canonicalize_uri)' % len(writes)
     ref = re.search(r'_(\d+) = &_%s;' % res, body)
     if not ref:
         return False, 'result of canonicalize_uri is not borrowed'
